@@ -284,9 +284,21 @@ def check_builder(model, rep):
                 recv = app.func.value
                 recv_txt = src(recv)
                 if f.name == '_block_for' and kind == 'With':
-                    ok = src(c.args[0]) == 'lock' and any(isinstance(l, ast.For) and '_iter_locks' in src(l.iter) and src(l.target) == 'lock' for l in ast.walk(f.node))
+                    loops = [l for l in ast.walk(f.node) if isinstance(l, ast.For) and '_iter_locks' in src(l.iter) and isinstance(l.target, ast.Name)]
+                    body_arg = c.args[1] if len(c.args) == 2 else next((k.value for k in c.keywords if k.arg == 'body'), None)
+                    ok = len(loops) == 1 and len(c.args) >= 1 and body_arg is not None and src(c.args[0]) == loops[0].target.id and any(x is c for x in ast.walk(loops[0]))
+                    if ok:
+                        # ... and what is handed out is the BODY of the innermost with: after With(lock, B) is appended to X, X becomes B, and X is returned
+                        lp = loops[0]
+                        holder, inner = src(recv), body_arg
+                        k = next((i for i, st in enumerate(lp.body) if any(x is c for x in ast.walk(st))), None)
+                        rebound = isinstance(inner, ast.Name) and any(isinstance(st, ast.Assign) and len(st.targets) == 1 and src(st.targets[0]) == holder and src(st.value) == inner.id for st in lp.body[k + 1:])
+                        fresh = isinstance(inner, ast.Name) and any(isinstance(st, ast.Assign) and src(st.targets[0]) == inner.id and src(st.value) == '_pyast.Block()' for st in lp.body[:k])
+                        rets = find_stmts(f.body, lambda s_: isinstance(s_, ast.Return))
+                        ok = rebound and fresh and bool(rets) and all(r_.value is not None and src(r_.value) == holder for r_ in rets)
                     rep.ob('R16.3', f.key, f.where(c), ok, '_block_for nests one `with lock` per lock of the shared arrays mentioned' if ok else
-                           '_block_for no longer wraps a With(lock) for every lock returned by _iter_locks', statement='nest-locks')
+                           '_block_for no longer hands out the body of a `with lock` nested once per lock returned by _iter_locks (the With must be appended, its fresh body must become the current block and be returned): '
+                           'the generated statement would be placed outside the lock of the shared array it updates', statement='nest-locks')
                     continue
                 # resolve receiver: self._block_for(args) directly or a local assigned from it on every branch
                 covers = None
